@@ -34,8 +34,13 @@ impl Delims {
         *self == Delims::default()
     }
     /// The six delimiter sets of DESIGN.md §5.6.
+    pub const N_SETS: usize = 8;
     pub fn set(i: usize) -> Delims {
-        match i % 6 {
+        match i % Self::N_SETS {
+            // start delimiters that do NOT share their first byte (added after seeded change
+            // C06c): ASCII mix, and three 2-byte characters with different lead bytes
+            6 => Delims::new("{%", "%}", "[[", "]]", "<#", "#>"),
+            7 => Delims::new("\u{ab}", "\u{bb}", "\u{3a9}", "\u{3c9}", "\u{e8}", "\u{ea}"),
             0 => Delims::default(),
             1 => Delims::new("<%", "%>", "<<", ">>", "<#", "#>"),
             2 => Delims::new("[%", "%]", "[[", "]]", "[#", "#]"),
@@ -71,6 +76,26 @@ impl Delims {
             }
         }
         t
+    }
+    /// Two-byte strings made of the first byte of one start delimiter and the second byte of
+    /// another (valid UTF-8 only, not themselves a delimiter): plain text that a sloppy marker
+    /// search could mistake for a delimiter.
+    pub fn cross_pairs(&self) -> Vec<String> {
+        let st = self.starts();
+        let mut out = Vec::new();
+        for a in st {
+            for b in st {
+                let (ab, bb) = (a.as_bytes(), b.as_bytes());
+                if ab.len() == 2 && bb.len() == 2 {
+                    if let Ok(sx) = std::str::from_utf8(&[ab[0], bb[1]]) {
+                        if !st.contains(&sx) && ![self.be.as_str(), self.ve.as_str(), self.ce.as_str()].contains(&sx) && !out.contains(&sx.to_string()) {
+                            out.push(sx.to_string());
+                        }
+                    }
+                }
+            }
+        }
+        out
     }
     fn starts(&self) -> [&str; 3] {
         [&self.bs, &self.vs, &self.cs]
@@ -135,7 +160,7 @@ impl GenCfg {
                 *wi *= 3;
             }
         }
-        let delims = if rng.chance(1, 4) { Delims::set(rng.range(1, 5)) } else { Delims::default() };
+        let delims = if rng.chance(1, 4) { Delims::set(rng.range(1, Delims::N_SETS - 1)) } else { Delims::default() };
         let prefixes = match rng.below(5) {
             0 => vec!["themes/a/".to_string()],
             1 => vec!["themes/a/".to_string(), "themes/b/".to_string()],
@@ -294,6 +319,13 @@ impl<'a> Gen<'a> {
         const UNI: &[&str] = &["\u{e9}", "\u{1F389}", "\u{fc}ber", "\u{4e2d}\u{6587}", "\u{c2}\u{a9}", "\u{ae}", "\u{b0}C", "\u{b1}1", "a\u{300}"];
         let n = self.rng.range(1, 5);
         let mut t = String::new();
+        if self.rng.chance(1, 4) {
+            let cp = self.cfg.delims.cross_pairs();
+            if !cp.is_empty() {
+                t.push_str(&self.rng.pick(&cp));
+                t.push_str("42");
+            }
+        }
         for _ in 0..n {
             if self.cfg.unicode_text && self.rng.chance(1, 3) {
                 t.push_str(self.rng.pick(UNI));
@@ -421,7 +453,13 @@ impl<'a> Gen<'a> {
                 8 => {
                     let a = self.rng.irange(-3, 3);
                     let b = self.rng.irange(-3, 5);
-                    format!("{}[{}:{}]", self.expr_p(env, Kind::Str, d), a, b)
+                    if self.rng.chance(1, 3) {
+                        // bounds and step taken from the context (128-bit extremes included)
+                        let (x, y, z) = (self.slice_operand(env), self.slice_operand(env), self.slice_operand(env));
+                        format!("{}[{}:{}:{}]", self.expr_p(env, Kind::Str, d), x, y, z)
+                    } else {
+                        format!("{}[{}:{}]", self.expr_p(env, Kind::Str, d), a, b)
+                    }
                 }
                 9 => format!("{} | truncate(length={})", self.expr_p(env, Kind::Str, d), self.rng.below(6)),
                 10 => {
@@ -514,7 +552,14 @@ impl<'a> Gen<'a> {
                 5 if want != Kind::ArrUser && want != Kind::ArrStr => format!("range(start={}, end={}, step_by={})", self.rng.below(3), self.rng.range(3, 8), self.rng.range(1, 3)),
                 6 => format!("{} | {}", self.expr_p(env, want, d), self.rng.pick(&["reverse", "sort", "unique"])),
                 7 => format!("{}[{}:]", self.expr_p(env, want, d), self.rng.irange(-2, 2)),
-                8 => format!("{}[::{}]", self.expr_p(env, want, d), self.rng.pick(&["-1", "2", "1", "-2"])),
+                8 => {
+                    if self.rng.chance(1, 3) {
+                        let (x, y, z) = (self.slice_operand(env), self.slice_operand(env), self.slice_operand(env));
+                        format!("{}[{}:{}:{}]", self.expr_p(env, want, d), x, y, z)
+                    } else {
+                        format!("{}[::{}]", self.expr_p(env, want, d), self.rng.pick(&["-1", "2", "1", "-2"]))
+                    }
+                }
                 9 if want != Kind::ArrUser => format!("{} | split(pat={})", self.expr_p(env, Kind::Str, d), self.rng.pick(&["\" \"", "\",\"", "\"a\"", "\"\""])),
                 10 if want != Kind::ArrUser => {
                     let v = format!("x{}", depth);
@@ -559,6 +604,19 @@ impl<'a> Gen<'a> {
                     self.expr(env, k, d)
                 }
             }
+        }
+    }
+
+    fn slice_operand(&mut self, env: &Env) -> String {
+        match self.rng.below(8) {
+            0 => String::new(),
+            1 => "none".to_string(),
+            2 => self.rng.irange(-3, 4).to_string(),
+            3 if env.ctx_visible => "n_big".to_string(),
+            4 if env.ctx_visible => "n_edge".to_string(),
+            5 if env.ctx_visible => "n_int".to_string(),
+            6 if env.ctx_visible => "n_small".to_string(),
+            _ => self.atom_p(env, Kind::Int),
         }
     }
 
